@@ -203,6 +203,8 @@ def match_known(v, known):
             continue
         if kf.get("msg_regex") and not re.search(kf["msg_regex"], v.get("msg") or ""):
             continue
+        if kf.get("requires_tags") and not set(kf["requires_tags"]) <= set(v.get("tags") or []):
+            continue
         return kf
     return None
 
